@@ -296,23 +296,31 @@ type trav struct {
 	bounds telem.TimeRange
 	fwd    bool
 	span   telem.TimeSpan
+	// rebound: the iterator is opened with bounds and then told SetBounds(*rebound) before
+	// the walk (the new bounds must reach every leaseholder's iterator)
+	rebound *telem.TimeRange
 }
+
+func rb(t telem.TimeRange) *telem.TimeRange { return &t }
 
 func travs() []trav {
 	S := func(a, b int) telem.TimeRange {
 		return telem.TimeRange{Start: telem.TimeStamp(a) * telem.SecondTS, End: telem.TimeStamp(b) * telem.SecondTS}
 	}
 	return []trav{
-		{"all, forward auto", telem.TimeRangeMax, true, telem.TimeSpan(-1)},
-		{"all, backward auto", telem.TimeRangeMax, false, telem.TimeSpan(-1)},
-		{"all, forward 2s", S(0, 40), true, 2 * telem.Second},
-		{"all, backward 3s", S(0, 40), false, 3 * telem.Second},
-		{"[11s,21s) forward 1s", S(11, 21), true, telem.Second},
-		{"[11s,13s) forward max", S(11, 13), true, telem.TimeSpanMax},
+		{"all, forward auto", telem.TimeRangeMax, true, telem.TimeSpan(-1), nil},
+		{"all, backward auto", telem.TimeRangeMax, false, telem.TimeSpan(-1), nil},
+		{"all, forward 2s", S(0, 40), true, 2 * telem.Second, nil},
+		{"all, backward 3s", S(0, 40), false, 3 * telem.Second, nil},
+		{"[11s,21s) forward 1s", S(11, 21), true, telem.Second, nil},
+		{"[11s,13s) forward max", S(11, 13), true, telem.TimeSpanMax, nil},
+		{"opened on all, SetBounds [12s,18s), forward 2s", telem.TimeRangeMax, true, 2 * telem.Second, rb(S(12, 18))},
+		{"opened on [11s,13s), SetBounds [0s,40s), backward 3s", S(11, 13), false, 3 * telem.Second, rb(S(0, 40))},
 	}
 }
 
 type stepper interface {
+	setBounds(telem.TimeRange)
 	SeekFirst() bool
 	SeekLast() bool
 	Next(telem.TimeSpan) bool
@@ -327,7 +335,7 @@ func readCesium(db *cesium.DB, keys []uint32, t trav) (map[uint32][]string, erro
 		return nil, err
 	}
 	defer func() { _ = it.Close() }()
-	return walk(keys, t, it, func() map[uint32]string {
+	return walk(keys, t, cesiumStepper{it}, func() map[uint32]string {
 		fr := it.Value()
 		m := map[uint32]string{}
 		for k, s := range fr.Entries() {
@@ -343,7 +351,7 @@ func readCluster(nd mock.Node, keys []uint32, t trav) (map[uint32][]string, erro
 		return nil, err
 	}
 	defer func() { _ = it.Close() }()
-	return walk(keys, t, it, func() map[uint32]string {
+	return walk(keys, t, clusterStepper{it}, func() map[uint32]string {
 		fr := it.Value()
 		m := map[uint32]string{}
 		for k, s := range fr.Entries() {
@@ -352,6 +360,14 @@ func readCluster(nd mock.Node, keys []uint32, t trav) (map[uint32][]string, erro
 		return m
 	}), nil
 }
+
+type cesiumStepper struct{ *cesium.Iterator }
+
+func (c cesiumStepper) setBounds(t telem.TimeRange) { c.Iterator.SetBounds(t) }
+
+type clusterStepper struct{ *framer.Iterator }
+
+func (c clusterStepper) setBounds(t telem.TimeRange) { _ = c.Iterator.SetBounds(t) }
 
 func seriesStr(s telem.Series) string {
 	if s.DataType == telem.TimeStampT {
@@ -371,6 +387,9 @@ func seriesStr(s telem.Series) string {
 func walk(keys []uint32, t trav, it stepper, value func() map[uint32]string) map[uint32][]string {
 	out := map[uint32][]string{}
 	ok := false
+	if t.rebound != nil {
+		it.setBounds(*t.rebound)
+	}
 	if t.fwd {
 		ok = it.SeekFirst()
 	} else {
